@@ -132,6 +132,11 @@ theorem step_sim (c : Cfg) (s : Nat) (st st' : StB) (e : EvB) (h : stepB c st e 
     split at h
     · cases h
     · cases h; rfl
+  case extCancel =>
+    nt_norm; nt_norm_at h
+    split at h
+    · cases h
+    · cases h; rfl
   case cancelAck j =>
     nt_norm; nt_norm_at h
     split at h
